@@ -37,12 +37,12 @@ def replay_instances(ctx):
         # binding cap, ORDERED batches of up to two addresses (refreshed-existing then new, new then
         # existing, two new) with two finite classes so that the nearest expiry is unique
         ("capo", {"Addrs": A3, "TTLs": "{0, 2, 3}" if q else "{0, 2, 3, 8}", "Conn": 8, "Seqs": "{1}", "Cap": 2, "MaxBatch": 2},
-         40, 250 if q else 1500, 60),
+         40, 250 if q else 1000, 60),
     ]
     if not q:
         # three addresses, two finite classes; singletons and the full set (221 688 transitions)
         out.append(("a3e", {"Addrs": A3, "TTLs": "{0, 2, 3, 8}", "Conn": 8, "Seqs": "{1, 2}", "Cap": 0, "MaxBatch": 3,
-                            "_ends": True}, 50, 1500, 80))
+                            "_ends": True}, 50, 1000, 80))
     return out
 
 
@@ -149,7 +149,7 @@ def _edges(args):
     g = graph.Graph(r.inits, r.edges)
     if g.n_edges() == 0:
         raise MachineryError("no edges printed for " + tag)
-    walks = covering_walks(g, ctx.seed, max_len, max_blind=2 if ctx.tier != "thorough" else 4)
+    walks = covering_walks(g, ctx.seed, max_len, max_blind=2 if (ctx.tier != "thorough" or g.n_edges() > 200000) else 4)
     n_cov = len(walks)
     for w in g.random_walks(n_rand, depth, seed=ctx.seed * 31 + 7):
         k = next((i for i, st in enumerate(w["steps"]) if st["op"].get("tie")), None)
@@ -223,7 +223,7 @@ def run(ctx):
     warm.join()
     # (3) replay on both real books
     res = goenv.run_harness(ctx, PKG, "^TestVerifC09Replay$", inputs=beh_dir, timeout=2400,
-                            env={"VERIF_C09_SHARDS": 6})
+                            env={"VERIF_C09_SHARDS": 6 if ctx.tier != "thorough" else 8})
     side = os.path.join(res["_out"], "c09_mismatches.json")
     if os.path.exists(side):      # complete list (vfh caps result.json at 50 entries)
         with open(side) as f:
